@@ -155,7 +155,13 @@ func (c LongCodec) Read(r *avro.ReadBuf, p unsafe.Pointer) error {
 		return err
 	}
 
-	*(*time.Time)(p) = time.Unix(0, l*c.mult).UTC()
+	// The zero value (the only LongCodec a caller can construct) is the
+	// documented nanosecond codec.
+	mult := c.mult
+	if mult == 0 {
+		mult = 1
+	}
+	*(*time.Time)(p) = time.Unix(0, l*mult).UTC()
 	return nil
 }
 
